@@ -87,10 +87,15 @@ def run(ctx):
     for mode, flag in (("window", T.FALSE), ("integrated", T.TRUE)):
         sq = sym.summarize(repo, q.qualname, bindings={P[2]: flag, P[3]: ("str", "average")})
         ctx.config(f"integrate={flag[1]}, normalize='average'")
-        st = [e for e in sq.stores() if e.sub and e.attr and e.attr.startswith("$") and e.loops()]
+        # the raw intensity per interface, however the dictionary is filled (stores in a loop, or a dict comprehension)
+        st = [en for en in rules.entries(sq) if en.loops()]
+        for nm in sorted({a.name for a in sq.events if a.kind == "assign"}):
+            st += [en for en in rules.entries(sq, name=nm) if en.loops() and en.how != "store"]
+        st = [en for en in st if en.loops()[-1][2] == T.call("enumerate", (big_edges,)) and not (en.elem[0] == "idx" and en.elem[2] == en.key)]
         if len(st) != 1:
-            raise AnalysisError(f"get_intensities[{mode}]: expected one store into the intensity dictionary, found {len(st)}")
+            raise AnalysisError(f"get_intensities[{mode}]: expected one entry per interface in the intensity dictionary, found {len(st)}")
         e = st[0]
+        e.value = e.elem
         lp = e.loops()
         b = ("bv", lp[0][1])
         ok_loop = len(lp) == 1 and lp[0][2] == T.call("enumerate", (big_edges,))
